@@ -757,23 +757,20 @@ def tie_scanners(run: Run, inputs: list[tuple[str, str]], tails: list[str]) -> N
         seen.add((q, raw))
         closed = r.random() < 0.9
         after = raw + (q + r.choice(tails) if closed else "")
-        eof_index_error = after == "" or after.endswith("}")     # DESIGN 10 item 3 (C02/C17): not generated
         # accept_string
         out = attempt(im.direct_string, q, after)
-        if not (out[0] == "err" and isinstance(out[1], IndexError) and eof_index_error):
-            exp = c_res(out, lambda v: f"({C.cstr(v[0])}, {C.cstr(v[1])})")
-            run.add("accept_string", f"str_ok {cq(q)} {C.cstr(after)} {exp}", f"accept_string {cq(q)} {C.cstr(after)}",
-                    {"function": "Lexer.accept_string", "quote": q, "after_quote": after,
-                     "implementation": out[1] if out[0] == "ok" else errname(out)})
+        exp = c_res(out, lambda v: f"({C.cstr(v[0])}, {C.cstr(v[1])})")
+        run.add("accept_string", f"str_ok {cq(q)} {C.cstr(after)} {exp}", f"accept_string {cq(q)} {C.cstr(after)}",
+                {"function": "Lexer.accept_string", "quote": q, "after_quote": after,
+                 "implementation": out[1] if out[0] == "ok" else errname(out)})
         # accept_template_string
         if in_fragment(raw):
             out = attempt(im.direct_template_string, q, after)
-            if not (out[0] == "err" and isinstance(out[1], IndexError) and eof_index_error):
-                exp = c_res(out, lambda v: f"({c_tok(v[0])}, {C.cstr(v[1])})")
-                run.add("accept_template_string", f"scan_ok {cq(q)} {C.cstr(after)} {exp}",
-                        f"scan_tok {cq(q)} {C.cstr(after)}",
-                        {"function": "Lexer.accept_template_string", "quote": q, "after_quote": after,
-                         "implementation": out[1] if out[0] == "ok" else errname(out)})
+            exp = c_res(out, lambda v: f"({c_tok(v[0])}, {C.cstr(v[1])})")
+            run.add("accept_template_string", f"scan_ok {cq(q)} {C.cstr(after)} {exp}",
+                    f"scan_tok {cq(q)} {C.cstr(after)}",
+                    {"function": "Lexer.accept_template_string", "quote": q, "after_quote": after,
+                     "implementation": out[1] if out[0] == "ok" else errname(out)})
             if "\\" in raw or "${" in raw:
                 run.nontrivial.add(f"s:{q}:{raw}")
         else:
@@ -1126,7 +1123,6 @@ def main(chk: C.Check, build: C.Build) -> None:
         "the ${...} sub-expression scanner is a parameter of the template-string scanner; the tie instantiates it with whitespace-separated ASCII words",
         "MAX_STR_INT equals CPython's int max str digits (the default, 4300)",
         "json: floats, non-str keys, indent and the default= hook are outside the model",
-        "the unclosed-literal-at-end-of-input IndexError (DESIGN 10 item 3, C02/C17) is modelled but not generated",
     ]
 
 
